@@ -168,3 +168,162 @@ func H_QItemOutcomes() {
 	verif.Assert(xs[len(xs)-1].outcome == oOK || xs[len(xs)-1].outcome == oSkip, "the item converges once faults cease")
 	verif.Cover("outcomes checked")
 }
+
+// ---- plain controller restart loop ----
+
+type probeC struct {
+	script   []int
+	calls    []time.Time
+	pending  []bool // a reconcile event was pending at (re)start
+	resetAt  int    // invocation index at which the controller calls ResetRestartBackoff (-1 never)
+}
+
+func (p *probeC) Name() string                 { return "plain" }
+func (p *probeC) Inputs() []controller.Input   { return nil }
+func (p *probeC) Outputs() []controller.Output { return nil }
+func (p *probeC) Run(ctx context.Context, r controller.Runtime, _ *zap.Logger) error {
+	n := len(p.calls)
+	p.calls = append(p.calls, time.Now())
+	got := false
+	select {
+	case <-r.EventCh():
+		got = true
+	default:
+	}
+	p.pending = append(p.pending, got)
+	if n == p.resetAt {
+		r.ResetRestartBackoff()
+	}
+	outcome := oOK
+	if n < len(p.script) {
+		outcome = p.script[n]
+	}
+	switch outcome {
+	case oError:
+		return errors.New("controller failed")
+	case oPanic:
+		panic("controller panicked")
+	}
+	<-ctx.Done()
+	return nil
+}
+
+// H_ControllerRestarts: a controller whose successive Run invocations fail or panic in any
+// pattern is restarted with growing, resettable backoff and a fresh reconcile event; cancellation stops it.
+func H_ControllerRestarts() {
+	n := 3
+	if verif.Tier() == "thorough" {
+		n = 4
+	}
+	ctx, cancel := context.WithCancel(context.Background())
+	st := state.WrapCore(namespaced.NewState(inmem.Build))
+	db, _ := dependency.NewDatabase()
+	p := &probeC{resetAt: verif.Choose("resetAt", n+1) - 1}
+	for i := 0; i < n; i++ {
+		o := oOK
+		switch verif.Choose("outcome", 3) {
+		case 1:
+			o = oError
+		case 2:
+			o = oPanic
+		}
+		p.script = append(p.script, o)
+	}
+	opts := options.DefaultOptions()
+	opts.MetricsEnabled = false
+	ad, err := rruntimeNew(p, adapter.Options{Logger: zap.NewNop(), State: st, Cache: cache.NewResourceCache(nil), DepDB: db, RuntimeOptions: opts,
+		RegisterWatch: func(resource.Namespace, resource.Type) error { return nil }})
+	verif.Assert(err == nil, "adapter created")
+	finished := false
+	go func() { ad.Run(ctx); finished = true }()
+	time.Sleep(10 * time.Minute)
+	verif.Quiesce()
+	verif.Assert(!finished, "errors and panics never end the controller loop while the runtime is running")
+	last := time.Duration(0)
+	for i := range p.calls {
+		verif.Assert(p.pending[i], "every (re)start finds a reconcile event pending (fresh reconcile)")
+		if i+1 < len(p.calls) {
+			verif.Assert(i < len(p.script) && p.script[i] != oOK, "only a failed or panicked run is restarted")
+			d := p.calls[i+1].Sub(p.calls[i])
+			verif.Assert(d > 0, "restart after a positive backoff")
+			if i == p.resetAt {
+				verif.Assert(last == 0 || d <= last, "ResetRestartBackoff returns the backoff to its initial interval")
+				verif.Cover("backoff reset")
+			} else {
+				verif.Assert(d >= last, "restart backoff grows across consecutive failures")
+			}
+			last = d
+		} else {
+			verif.Assert(i >= len(p.script) || p.script[i] == oOK, "a failed or panicked run is always followed by a restart")
+		}
+	}
+	cancel()
+	verif.Quiesce()
+	verif.Assert(finished, "on cancellation the controller loop returns")
+	verif.Cover("restarts checked")
+}
+
+// ---- task restarts ----
+
+type tspec struct {
+	script  []int
+	calls   []time.Time
+	running int
+}
+
+func (s *tspec) ID() string { return "t" }
+func (s *tspec) RunTask(ctx context.Context, _ *zap.Logger, _ int) error {
+	n := len(s.calls)
+	s.calls = append(s.calls, time.Now())
+	s.running++
+	defer func() { s.running-- }()
+	outcome := oOK
+	if n < len(s.script) {
+		outcome = s.script[n]
+	}
+	switch outcome {
+	case oError:
+		return errors.New("task failed")
+	case oPanic:
+		panic("task panicked")
+	}
+	<-ctx.Done()
+	return nil
+}
+
+func H_TaskRestarts() {
+	n := 3
+	if verif.Tier() == "thorough" {
+		n = 4
+	}
+	s := &tspec{}
+	for i := 0; i < n; i++ {
+		o := oOK
+		switch verif.Choose("outcome", 3) {
+		case 1:
+			o = oError
+		case 2:
+			o = oPanic
+		}
+		s.script = append(s.script, o)
+	}
+	t := taskNew(zap.NewNop(), s, 0)
+	t.Start(context.Background())
+	time.Sleep(10 * time.Minute)
+	verif.Quiesce()
+	last := time.Duration(0)
+	for i := range s.calls {
+		if i+1 < len(s.calls) {
+			verif.Assert(s.script[i] != oOK, "only a failed or panicked task run is restarted")
+			d := s.calls[i+1].Sub(s.calls[i])
+			verif.Assert(d > 0 && d >= last, "task restarts come after a positive, growing backoff")
+			last = d
+		} else {
+			verif.Assert(i >= len(s.script) || s.script[i] == oOK, "a failed or panicked task run is always restarted")
+		}
+	}
+	verif.Assert(s.running == 1, "the task is running again once faults cease")
+	t.Stop()
+	verif.Assert(s.running == 0, "Stop returns only after the task function returned")
+	verif.Cover("task restarts checked")
+}
